@@ -184,7 +184,39 @@ theorem C37_fails_asis_close_wait_panics (c : AllCfg) (hc : c.w.getGuard = false
     simp [hr] at h
     exact ⟨s, ⟨2, wgRace, hr⟩, h⟩
 
+/-! ### the packing loop of `lsm.SetBatch` (`Queue/PackModel.lean`): the commit worker
+returns from applying a request -/
+
+/-- **The packing loop terminates**: with `used+est > avail` as the fit test,
+`walSize+est > MemTableSize` as the rotation guard and an oversize entry admitted alone into
+an empty memtable, every entry (any size, any fill level) is written after at most one
+rotation — the two tests never disagree ("does not fit" and "do not rotate"). -/
+theorem C37_pack_terminates (c : AllCfg) (hc : c.p.Good) (m wal est : Nat) (hm : 0 < m)
+    (he : 0 < est) : packDone c.p m wal est = true :=
+  pack_good c.p hc m wal est hm he
+
+/-- **Partial (as-is tree)**: the same for entries whose size estimate does not exceed
+MemTableSize.  Missing: larger entries (see `C37_fails_asis_oversize_entry`). -/
+theorem C37_pack_terminates_partial (c : AllCfg) (hc : c.p.OpsGood) (m wal est : Nat)
+    (hm : 0 < m) (he : 0 < est) (hsz : est ≤ m) : packDone c.p m wal est = true :=
+  pack_ops_good c.p hc m wal est hm he hsz
+
+/-- As-is (`oversizeAlone = false`): an entry one byte larger than MemTableSize meets an empty
+memtable, is found not to fit, the memtable is rotated — and the next empty memtable is in
+exactly the same state: the commit worker rotates for ever, every write and `Close` hang. -/
+theorem C37_fails_asis_oversize_entry (c : AllCfg)
+    (hc : c.p = { fitOp := .gt, guardOp := .gt, oversizeAlone := false }) :
+    packFirst c.p 65536 0 65537 = .rotated ∧ packDone c.p 65536 0 65537 = false := by
+  rw [hc]; decide
+
 /-! ### non-vacuity -/
+
+/-- the operators matter: with `>=` as the fit test an entry that fills the memtable exactly
+neither fits nor rotates -/
+example : packFirst { PCfg.good with fitOp := .ge } 65536 1031 64505 = .spin ∧
+    packFirst PCfg.good 65536 1031 64505 = .written ∧
+    packFirst PCfg.good 65536 1031 64506 = .rotated ∧
+    packFirst PCfg.good 65536 0 65537 = .written := by decide
 
 /-- guarded: the second `Add` is refused, the schedule without it ends with Close returned -/
 example : wstep CCfg.good { (WSt.init 2) with closed := true } (.radd 1) = none ∧
